@@ -40,13 +40,14 @@ inductive Op where
   | growTo (n : Nat)        -- `grow_to_at_least(n)`: load; `while (old < n && !CAS(old, n)) {}`
   deriving Repr, DecidableEq
 
-/-- Thread-local program state of one grower. `pc = 0`: not started; `1`: inside the CAS loop of
-`growTo` holding `old`; `2`: done. -/
+/-- Thread-local program state of one grower: the calls it still has to make (head = current), `pc = 0`: the
+current call has not touched the size word yet; `1`: inside the CAS loop of `growTo` holding `old`; `2`: a `growTo`
+that found nothing to grow, about to read `size()` for its return value. -/
 structure Th where
-  op    : Op
-  pc    : Nat := 0
-  old   : Nat := 0
-  claim : Option (Nat × Nat) := none   -- the half-open range `[start, end)` this call must construct
+  ops    : List Op
+  pc     : Nat := 0
+  old    : Nat := 0
+  claims : List (Nat × Nat) := []   -- half-open ranges `[start, end)` its completed calls must construct, newest first
   deriving Repr, DecidableEq
 
 structure St where
@@ -56,33 +57,48 @@ structure St where
   log    : List (Nat × Nat) := []
   deriving Repr, DecidableEq
 
-def stepTh (size : Nat) (t : Th) : Nat × Th × Option (Nat × Nat) :=
-  match t.pc, t.op with
-  | 0, .pushBack => (size + 1, { t with pc := 2, claim := some (size, size + 1) }, some (size, size + 1))
+/-- An access to `my_size` as it appears in the E-SHIM trace. -/
+structure Ev where
+  kind : String
+  a : Nat
+  b : Nat
+  ok : Bool
+  deriving Repr, DecidableEq
+
+/-- One access to the size word by thread state `t`: new size, new thread state, range handed out (if any), event. -/
+def stepTh (size : Nat) (t : Th) : Nat × Th × Option (Nat × Nat) × Option Ev :=
+  match t.ops with
+  | [] => (size, t, none, none)
+  | op :: rest =>
+  match t.pc, op with
+  | 0, .pushBack =>
+      (size + 1, { t with ops := rest, claims := (size, size + 1) :: t.claims }, some (size, size + 1), some ⟨"fadd", size, size + 1, true⟩)
   | 0, .growBy d =>
-      if d = 0 then (size, { t with pc := 2 }, none)
-      else (size + d, { t with pc := 2, claim := some (size, size + d) }, some (size, size + d))
+      if d = 0 then (size, { t with ops := rest }, none, some ⟨"load", size, 0, true⟩)   -- `return end()`: reads size() only
+      else (size + d, { t with ops := rest, claims := (size, size + d) :: t.claims }, some (size, size + d), some ⟨"fadd", size, size + d, true⟩)
   | 0, .growTo n =>
-      if n = 0 then (size, { t with pc := 2 }, none)
-      else (size, { t with pc := 1, old := size }, none)            -- relaxed load of my_size
+      if n = 0 then (size, { t with ops := rest, old := size }, none, some ⟨"load", size, 0, true⟩)
+      else if size < n then (size, { t with pc := 1, old := size }, none, some ⟨"load", size, 0, true⟩)   -- relaxed load
+      else (size, { t with pc := 2, old := size }, none, some ⟨"load", size, 0, true⟩)                    -- loop not entered
   | 1, .growTo n =>
-      if t.old < n then
-        if size = t.old then                                        -- CAS succeeds
-          (n, { t with pc := 2, claim := some (t.old, n) }, some (t.old, n))
-        else (size, { t with old := size }, none)                  -- CAS fails, `old` reloaded
-      else (size, { t with pc := 2 }, none)
-  | _, _ => (size, t, none)
+      if size = t.old then                                        -- CAS succeeds
+        (n, { t with ops := rest, pc := 0, claims := (t.old, n) :: t.claims }, some (t.old, n), some ⟨"cas", t.old, n, true⟩)
+      else if size < n then (size, { t with old := size }, none, some ⟨"cas", t.old, size, false⟩)   -- CAS fails, `old` reloaded, retry
+      else (size, { t with pc := 2, old := size }, none, some ⟨"cas", t.old, size, false⟩)            -- someone else grew past n
+  | 2, .growTo _ =>   -- nothing to grow: (wait for segments, then) `return iterator(*this, size())` reads the word once more
+      (size, { t with ops := rest, pc := 0 }, none, some ⟨"load", size, 0, true⟩)
+  | _, _ => (size, t, none, none)
 
 def step (s : St) (tid : Tid) : St :=
   match s.ths[tid]? with
   | none => s
   | some t =>
-    let (size', t', c) := stepTh s.size t
+    let (size', t', c, _) := stepTh s.size t
     { size := size', ths := s.ths.set tid t',
       log := match c with | none => s.log | some r => s.log ++ [r] }
 
-def sys (ops : List Op) : Sys St :=
-  { init := { size := 0, ths := ops.map (fun o => { op := o }), log := [] }, step := step }
+def sys (progs : List (List Op)) : Sys St :=
+  { init := { size := 0, ths := progs.map (fun p => { ops := p }), log := [] }, step := step }
 
 /-- `tiles lo rs hi`: the ranges `rs`, in order, are non-empty, contiguous and cover `[lo, hi)`. -/
 def tiles : Nat → List (Nat × Nat) → Nat → Prop
@@ -131,32 +147,47 @@ def drive (ws : List String) : String :=
       | _, _ => "bad-op"
   | _ => "bad-op"
 
-/-- Stateful replay of the size word: `op <tid> push|by <d>|to <n>` registers a call, `s <tid>` makes
-the thread take one atomic step, output = the range it was handed (or `-`). -/
+def parseOps : List String → Option (List Op)
+  | [] => some []
+  | "push" :: _ :: rest => (parseOps rest).map (Op.pushBack :: ·)
+  | "by" :: x :: rest => match x.toNat?, parseOps rest with
+      | some x, some r => some (Op.growBy x :: r)
+      | _, _ => none
+  | "to" :: x :: rest => match x.toNat?, parseOps rest with
+      | some x, some r => some (Op.growTo x :: r)
+      | _, _ => none
+  | _ => none
+
+/-- Stateful replay of the size word: `prog (push 0|by <d>|to <n>)*` registers a thread, `s <tid>` makes the thread
+perform its next access to the size word; output = `<kind> <a> <b> <ok> | <ops left> <claims oldest first as a:b>`. -/
 structure DSt where
   st : St := {}
 
 open Proto in
 def driveSt (d : DSt) (ws : List String) : DSt × String :=
   match ws with
-  | ["op", "push"] => ({ st := { d.st with ths := d.st.ths ++ [{ op := .pushBack }] } }, "ok")
-  | ["op", "by", x] => match nat? x with
-      | some x => ({ st := { d.st with ths := d.st.ths ++ [{ op := .growBy x }] } }, "ok")
-      | none => (d, "bad-op")
-  | ["op", "to", x] => match nat? x with
-      | some x => ({ st := { d.st with ths := d.st.ths ++ [{ op := .growTo x }] } }, "ok")
+  | "prog" :: ops => match parseOps ops with
+      | some os => ({ st := { d.st with ths := d.st.ths ++ [{ ops := os }] } }, "ok")
       | none => (d, "bad-op")
   | ["s", t] => match nat? t with
       | some t =>
-        let s' := step d.st t
-        let out := match s'.ths[t]? with
-          | some th => (match th.claim with
-              | some (a, b) => s!"{th.pc} {a} {b} {s'.size}"
-              | none => s!"{th.pc} - - {s'.size}")
-          | none => "bad-tid"
-        ({ st := s' }, out)
+        match d.st.ths[t]? with
+        | none => (d, "bad-tid")
+        | some th0 =>
+          let ev := (stepTh d.st.size th0).2.2.2
+          let s' := step d.st t
+          match s'.ths[t]? with
+          | some th =>
+            let evs := match ev with | some e => s!"{e.kind} {e.a} {e.b} {showBool e.ok}" | none => "-"
+            let cl := " ".intercalate (th.claims.reverse.map (fun r => s!"{r.1}:{r.2}"))
+            ({ st := s' }, s!"{evs} | {th.ops.length} {cl}")
+          | none => (d, "bad-tid")
       | none => (d, "bad-op")
-  | ["tiles"] => (d, Proto.showBool (decide (tiles 0 d.st.log d.st.size)))
+  | ["skip", t] =>   -- a call that does not touch the size word (grow_by(0)): advance past it
+      match nat? t with
+      | some t => ({ st := step d.st t }, "ok")
+      | none => (d, "bad-op")
+  | ["tiles"] => (d, s!"{Proto.showBool (decide (tiles 0 d.st.log d.st.size))} {d.st.size}")
   | ["reset"] => ({}, "ok")
   | _ => (d, "bad-op")
 
